@@ -62,6 +62,15 @@ PROGRAMS = {
     "exec_result": {"main": [U("greet"), ("exec", "lookup", "r"), ("if", ("eq", "r", 1), [B("one")], [B("other")]), ("exec", "log", None), B("done")]},
     "exec_loop": {"main": [U("greet"), ("set", "ok", ("const", 0)), ("while", ("eq", "ok", 0), [("exec", "probe", "ok"), B("probed")]), B("done")]},
     "if_in_while": {"main": [U("greet"), ("set", "n", ("const", 0)), ("while", ("lt", "n", 2), [("if", ("eq", "x", "n"), [B("match")], [B("nomatch")]), ("set", "n", ("add", "n", 1))]), U("bye"), B("end")]},
+    "nested_while": {"main": [U("greet"), ("set", "i", ("const", 0)), ("set", "t", ("const", 0)),
+                              ("while", ("lt", "i", 2), [("set", "j", ("const", 0)),
+                                                         ("while", ("lt", "j", 3), [("if", ("eq", "j", "x"), [("break",)], []), ("set", "j", ("add", "j", 1)), ("set", "t", ("add", "t", 1)),
+                                                                                    ("if", ("eq", "y", 1), [("continue",)], []), B("inner")]),
+                                                         ("set", "i", ("add", "i", 1)), B("outer")]),
+                              B("finished")]},
+    # the flow starts with logic over context variables (evaluated when the flow is started)
+    "leading_if": {"main": [("if", ("gt", "x", 1), [U("greet"), B("vip")], [U("greet"), B("plain")]), B("after")]},
+    "leading_set": {"main": [("set", "n", ("add", "x", 1)), U("greet"), ("if", ("gt", "n", 2), [B("big")], [B("small")])]},
     "and_cond": {"main": [U("greet"), ("if", ("and", ("gt", "x", 0), ("eq", "y", 1)), [B("both")], [B("not both")]), ("if", ("not", ("lt", "x", 2)), [B("ge2")], []), B("fin")]},
 }
 OPS = {"lt": "<", "gt": ">", "eq": "==", "ne": "!="}
@@ -193,6 +202,7 @@ def ref_main(prog, ctx):
 
 # ---- real code ---------------------------------------------------------------------------------------------------------
 PROG = sl("prog", "if_else")
+DECOY_X = int(sl("decoy_x", 0))
 STEPS = int(sl("steps", 6))
 P = PROGRAMS[PROG]
 SRC = render(P)
@@ -230,6 +240,15 @@ def _strip(steps):
     return [{k: v for k, v in s.items() if k not in ("uid", "event_created_at", "source_uid", "action_uid")} for s in steps]
 
 
+def _decoy(used, x2, y2):
+    """An unrelated conversation (other context values) decided on the same flow configuration object before the real one:
+    the real decisions must not depend on it ("a function of the event history alone")."""
+    hist = [{"type": "ContextUpdate", "data": {"x": x2, "y": y2}}, {"type": "UserIntent", "intent": "greet"}]
+    compute_next_steps(hist, used, None, [])
+    hist.append({"type": "UserIntent", "intent": "something else"})
+    compute_next_steps(hist, used, None, [])
+
+
 def follows(x: int, y: int, r0: int, r1: int, r2: int, u0: int, u1: int, u2: int, u3: int) -> bool:
     """
     For a dialog that follows the program (the user may also say an unrelated intent at any of its turns), the next step decided by the runtime after
@@ -243,6 +262,8 @@ def follows(x: int, y: int, r0: int, r1: int, r2: int, u0: int, u1: int, u2: int
     stubs.reset()
     with _untraced():
         used = copy.deepcopy(_PRISTINE)
+        _decoy(used, 3 - DECOY_X, 1)  # natively: an earlier, different conversation on the same instance
+        _decoy(used, DECOY_X, 0)
     ctx = {"x": x, "y": y}
     ref = ref_main(P, ctx)
     hist = [{"type": "ContextUpdate", "data": {"x": x, "y": y}}]
@@ -321,13 +342,13 @@ ALL = sorted(PROGRAMS)
 SPEC = {
     "property": "C14",
     "functions": FUNCTIONS,
-    "bounds": "15 catalogue programs over {user, bot, set, if/else (nested, without else, and/not conditions), while with counter, break, continue, do subflow (with user turns, called twice, finishing "
+    "bounds": "18 catalogue programs over {user, bot, set, if/else (nested, without else, and/not conditions), while with counter, nested while with inner break/continue, break, continue, flows that start with an if / an assignment, do subflow (with user turns, called twice, finishing "
               "immediately), execute with and without result}; initial context x in 0..3, y in 0..1, action return values in 0..2 (all symbolic); at each user turn the user follows the flow or says "
               "an unrelated intent (symbolic); dialogs of 6 (quick) / 9 (thorough) decision points, each decision recomputed from the whole history",
     "outside": "competing intents / several dialog flows / flow priorities (C01, C16 exercise the shipped flows); when/else when; flows with parameters",
     "assumptions": ["programs are generated from small ASTs, rendered to Colang 1.0 text and parsed by the real parser once per program (untraced)",
                     "context updates decided by the runtime are appended to the history as RuntimeV1_0.generate_events does"],
-    "explanation": "Oracle: a generator-based reference interpreter of the program AST (sequencing, if/else, while/break/continue, assignment, subflow call inlined, execute with result); "
+    "explanation": "Before the real dialog two unrelated conversations with other context values are decided on the same flow_configs object. Oracle: a generator-based reference interpreter of the program AST (sequencing, if/else, while/break/continue, assignment, subflow call inlined, execute with result); "
                    "after every event the runtime's actionable next step must be the reference's next statement (none while waiting for the user); finally compute_next_steps on the used "
                    "flow_configs equals compute_next_steps on a fresh copy.",
     "conditions": [
